@@ -84,7 +84,10 @@ class C19(Check):
                         "mode": rng.choice(["sequential", "sequential", "parallel", "conditional", "amplifying"]),
                         "runs": rng.choice([1, 2, 2, 3]),
                         "build": rng.choice(["add", "add", "insert", "reverse-insert", "dummy-removed", "late-gate", "mixed"]),
-                        "entry": rng.choice(["run", "run", "run", "run_parallel"])})
+                        "entry": rng.choice(["run", "run", "run", "run_parallel"]),
+                        # environment that must be transparent: printing on, benign recording hooks, read-only accessors
+                        # and a failed remove_stage between the runs of the same object
+                        "loud": rng.random() < 0.3, "hooks": rng.random() < 0.3, "observe": rng.random() < 0.3})
         return out
 
     def exhaustive_cases(self):
@@ -119,6 +122,21 @@ class C19(Check):
                 v.case = case
                 self.violations.append(v)
         self.extra_cov["mapk_preset_runs"] = 3
+        # past the history cap (1000 results): the 1003rd run of one object is still judged like the first
+        from operon_ai.topology import cascade as C
+        casc = C.Cascade("cap", silent=True)
+        casc.add_stage(C.CascadeStage(name="s0", processor=lambda x: x + 1, checkpoint=lambda x: x != 7))
+        first = casc.run(1)
+        for _ in range(1001):
+            casc.run(1)
+        blocked = casc.run(7)
+        last = casc.run(1)
+        if (first.success, first.final_output) != (last.success, last.final_output) or blocked.success or blocked.final_output is not None:
+            self.violations.append(Violation("C19/state-carried-between-runs",
+                                             f"after 1003 runs of one pipeline object: first {first.success, first.final_output}, "
+                                             f"last {last.success, last.final_output}, gated run {blocked.success, blocked.final_output}",
+                                             case={"history_cap": True}))
+        self.extra_cov["runs_past_history_cap"] = 1004
 
     # -- implementation ----------------------------------------------------
     def run_impl(self, case):
@@ -128,7 +146,20 @@ class C19(Check):
             return self._run_mapk(C, case)
         stages = case["stages"]
         mode = {m.value: m for m in C.CascadeMode}[case.get("mode", "sequential")]
-        casc = C.Cascade("c", mode=mode, max_amplification=case["max"], halt_on_failure=case["halt"], silent=True)
+        hooked = {"stage": [], "cascade": []}
+        kw = {}
+        if case.get("hooks"):
+            kw = {"on_stage_complete": lambda r: hooked["stage"].append(r.stage_name),
+                  "on_cascade_complete": lambda r: hooked["cascade"].append(bool(r.success))}
+        import contextlib
+        import io
+        out_cm = contextlib.redirect_stdout(io.StringIO()) if case.get("loud") else contextlib.nullcontext()
+        with out_cm:
+            return self._run_pipeline(C, case, log, stages, mode, kw, hooked)
+
+    def _run_pipeline(self, C, case, log, stages, mode, kw, hooked):
+        casc = C.Cascade("c", mode=mode, max_amplification=case["max"], halt_on_failure=case["halt"],
+                         silent=not case.get("loud"), **kw)
         built = []
         for i, s in enumerate(stages):
             def mk(i, s):
@@ -199,7 +230,19 @@ class C19(Check):
             r0 = entry(case["x"])
             earlier.append(self._summary(r0, sorted(log) if parallel else list(log), parallel))
             del log[:]
+            if case.get("observe"):
+                casc.get_statistics()
+                casc.get_history(5) if hasattr(casc, "get_history") else None
+                casc.remove_stage("no-such-stage")
+        hooked["stage"].clear()
+        hooked["cascade"].clear()
         res = entry(case["x"])
+        if case.get("hooks"):
+            done = sorted(r.stage_name for r in res.stage_results if r.status.value == "completed" and r.error is None)
+            if not parallel and (sorted(hooked["stage"]) != done or hooked["cascade"] != [bool(res.success)]):
+                self.violations.append(Violation(
+                    "C19/hooks-disagree", f"on_stage_complete saw {hooked['stage']}, on_cascade_complete saw {hooked['cascade']}; "
+                    f"the result reports completed-by-processor stages {done} and success={res.success}", case=case))
         codes = {"completed": 0, "failed": 1, "skipped": 2, "blocked": 3}
         if parallel:
             return self._obs_parallel(case, res, log, earlier, codes)
